@@ -225,7 +225,25 @@ func (fr *Frame) evalC(e *CExpr, env *Env, hint *Sort) *GVal {
 				n.vars[k] = v
 			}
 		}
-		return fr.evalC(e.Args[0], &n, hint)
+		g := fr.evalC(e.Args[0], &n, hint)
+		if g.T == nil {
+			return &GVal{T: fr.termIn(g, &n), Typ: g.Typ}
+		}
+		return g
+	case "entry":
+		li := fr.loops[env.dbgHead]
+		if env.dbgHead == nil || li == nil || li.entrySt == nil {
+			return bad("\\entry() outside a loop clause in %s", e)
+		}
+		n := *env
+		n.st = li.entrySt
+		n.vars = li.entryVars
+		g := fr.evalC(e.Args[0], &n, hint)
+		if g.T == nil {
+			// a value backed by local storage: read it in the entry state, not in the caller's
+			return &GVal{T: fr.termIn(g, &n), Typ: g.Typ}
+		}
+		return g
 	case "field":
 		base := fr.evalC(e.Args[0], env, nil)
 		return fr.evalField(base, e.Name, env, e)
@@ -597,6 +615,44 @@ func (fr *Frame) evalCall(e *CExpr, env *Env, hint *Sort) *GVal {
 	case "arrOf":
 		x := arg(0, SVal)
 		return tv(w.MkSlice(SVal, VArrOf(x), VLenOf(x), VArrNil(x)))
+	case "objOf":
+		x := arg(0, SVal)
+		if obj := ex.p.pkg.Pkg.Scope().Lookup("specEmptyObj"); obj != nil {
+			mt := obj.Type().(*types.Signature).Results().At(0).Type()
+			mi := w.MapInfoOfSort(w.SortOf(mt))
+			return tv(w.MkMap(mi, VDomOf(x), VMapOf(x), VSizeOf(x), VObjNil(x)))
+		}
+	case `\perm`:
+		// index in the input of the element that the last sort.Stable call on this path put at position j
+		var arr *Term
+		n := 0
+		for k, v := range env.st.ghost {
+			if strings.HasPrefix(k, "sortArr:") {
+				arr = v
+				n++
+			}
+		}
+		ln := env.st.ghost["sortLen"]
+		if n == 0 {
+			// no sort happened on this path: nothing is known about the index function
+			ex.p.DeclareFun("sortPerm_none", []*Sort{SInt}, SInt)
+			return tv(App("sortPerm_none", SInt, arg(0, SInt)))
+		}
+		if n != 1 || ln == nil {
+			ex.unsupp("contract: \\perm() is ambiguous: %d sort.Stable calls on the path in %s", n, e)
+			return tv(IntLit(0))
+		}
+		_, es := arr.S.ArrayParts()
+		pf := "sortPerm_" + sortIdent(es)
+		return tv(App(pf, SInt, arr, ln, arg(0, SInt)))
+	case "runesOf":
+		si := w.sliceSort(SBV32)
+		ex.p.DeclareFun("gs.to_"+sortIdent(SBV32), []*Sort{SStr}, si.S)
+		return tv(App("gs.to_"+sortIdent(SBV32), si.S, arg(0, SStr)))
+	case "validRune":
+		return tv(validRune(arg(0, SBV32)))
+	case "emptyStrs":
+		return tv(w.MkSlice(SStr, ConstArray(SArray(SInt, SStr), ex.zeroElem(types.Typ[types.String])), IntLit(0), TFalse))
 	case "arrLen":
 		return tv(VLenOf(arg(0, SVal)))
 	case "arrAt":
